@@ -9,6 +9,7 @@
 #include <iostream>
 #include <memory>
 #include <sstream>
+#include <stdexcept>
 #include <string>
 #include <vector>
 #include "rkcommon/array3D/Array3D.h"
@@ -73,7 +74,18 @@ static std::string show_range(const A &arr, const vec3i &b, const vec3i &e)
   std::vector<std::string> g;
   for_each(b, e, [&](const vec3i &idx) { g.push_back(si((i64)arr.get(idx))); });
   std::string res = r.empty() ? std::string("R empty") : "R " + si((i64)r.lower) + " " + si((i64)r.upper);
-  return res + " G " + join(g);
+  res += " G " + join(g);
+  if (b == vec3i(0) && e == arr.size()) {       // the no-argument overload is getValueRange(vec3i(0), size())
+    auto f = arr.getValueRange();
+    if (f.empty() != r.empty() || (!f.empty() && (f.lower != r.lower || f.upper != r.upper))) res += " full-overload-differs";
+  }
+  return res;
+}
+template <typename A>
+static std::string set_throws(A &arr)
+{
+  try { arr.set(vec3i(0), 1); } catch (const std::runtime_error &) { return ""; }
+  return " set-does-not-throw";
 }
 
 int main()
@@ -178,6 +190,51 @@ int main()
       auto ret = ++it;
       out << "post " << join(post) << " pre " << join(pre) << " rf " << join(rf) << " ret " << su(it.current()) << "."
           << su(ret.current());
+    } else if (k == "IO3" || k == "IO2") {
+      // the remaining iterator / sequence members: 1-argument constructor, jump_to, current, + - (offset and iterator),
+      // postfix-signature and prefix --, ==, dimensions().  "IO3 dx dy dz a b" with b <= a - 2 (no unsigned underflow)
+      u64 dx, dy, dz = 1, a, b;
+      in >> dx >> dy;
+      if (k == "IO3") in >> dz;
+      in >> a >> b;
+      std::vector<std::string> c;
+      std::string dimtxt, eqtxt;
+      if (k == "IO3") {
+        const vec_t<size_t, 3> d(dx, dy, dz);
+        index_sequence_3D seq(d);
+        dimtxt = s3u(seq.dimensions());
+        multidim_index_iterator<3> it(d);
+        c.push_back(su(it.current()));
+        it.jump_to(a); c.push_back(su(it.current()));
+        it + (size_t)b; c.push_back(su(it.current()));
+        multidim_index_iterator<3> other(d, b);
+        it + other; c.push_back(su(it.current()));
+        it - other; c.push_back(su(it.current()));
+        it - (size_t)b; c.push_back(su(it.current()));
+        it--; c.push_back(su(it.current()));
+        auto r = --it; c.push_back(su(it.current())); c.push_back(su(r.current()));
+        eqtxt = std::string(it == multidim_index_iterator<3>(d, it.current()) ? "1" : "0") + (it == other ? "1" : "0")
+            + (it == multidim_index_iterator<3>(vec_t<size_t, 3>(dx + 1, dy, dz), it.current()) ? "1" : "0")
+            + (it != multidim_index_iterator<3>(d, it.current()) ? "1" : "0");
+      } else {
+        const vec_t<size_t, 2> d(dx, dy);
+        index_sequence_2D seq(d);
+        dimtxt = s2u(seq.dimensions());
+        multidim_index_iterator<2> it(d);
+        c.push_back(su(it.current()));
+        it.jump_to(a); c.push_back(su(it.current()));
+        it + (size_t)b; c.push_back(su(it.current()));
+        multidim_index_iterator<2> other(d, b);
+        it + other; c.push_back(su(it.current()));
+        it - other; c.push_back(su(it.current()));
+        it - (size_t)b; c.push_back(su(it.current()));
+        it--; c.push_back(su(it.current()));
+        auto r = --it; c.push_back(su(it.current())); c.push_back(su(r.current()));
+        eqtxt = std::string(it == multidim_index_iterator<2>(d, it.current()) ? "1" : "0") + (it == other ? "1" : "0")
+            + (it == multidim_index_iterator<2>(vec_t<size_t, 2>(dx + 1, dy), it.current()) ? "1" : "0")
+            + (it != multidim_index_iterator<2>(d, it.current()) ? "1" : "0");
+      }
+      out << "D " << dimtxt << " C " << join(c) << " E " << eqtxt;
     } else if (k == "AR") {
       vec3i d;
       int n;
@@ -205,7 +262,7 @@ int main()
       in >> d.x >> d.y >> d.z >> s.x >> s.y >> s.z;
       auto base = filled<int>(d, [](int i) { return 1 + i; });
       IndexShiftedArray3D<int> sh(base, s);
-      out << show_arr(sh, -2, d.x + 2, -2, d.y + 2, -2, d.z + 2, true);
+      out << show_arr(sh, -2, d.x + 2, -2, d.y + 2, -2, d.z + 2, true) << set_throws(sh);
     } else if (k == "RP") {
       vec3i d, r;
       in >> d.x >> d.y >> d.z >> r.x >> r.y >> r.z;
@@ -217,7 +274,7 @@ int main()
       in >> d.x >> d.y >> d.z >> lo.x >> lo.y >> lo.z >> hi.x >> hi.y >> hi.z;
       auto base = filled<int>(d, [](int i) { return 1 + i; });
       SubBoxArray3D<int> sb(base, box3i(lo, hi));
-      out << show_arr(sb, -2, hi.x - lo.x + 2, -2, hi.y - lo.y + 2, -2, hi.z - lo.z + 2, true);
+      out << show_arr(sb, -2, hi.x - lo.x + 2, -2, hi.y - lo.y + 2, -2, hi.z - lo.z + 2, true) << set_throws(sb);
     } else if (k == "AC") {
       vec3i d;
       int seed;
@@ -241,7 +298,7 @@ int main()
       for (int s = 0; s < n; ++s)
         slices.push_back(filled<int>(vec3i(dx, dy, dzs), [seed, s](int i) { return value(seed + s, i); }));
       MultiSliceArray3D<int> ms(slices);
-      out << show_arr(ms, 0, dx, 0, dy, -2, n + 2, false);
+      out << show_arr(ms, 0, dx, 0, dy, -2, n + 2, false) << set_throws(ms);
     } else if (k == "VR") {
       vec3i d, b, e;
       int seed;
@@ -250,6 +307,10 @@ int main()
       range_t<int> r = base->getValueRange(b, e);
       if (r.empty()) out << "empty";
       else out << si(r.lower) << " " << si(r.upper);
+      if (b == vec3i(0) && e == d) {
+        range_t<int> f = base->getValueRange();
+        if (f.empty() != r.empty() || (!f.empty() && (f.lower != r.lower || f.upper != r.upper))) out << " full-overload-differs";
+      }
     } else if (k == "VA") {
       // getValueRange THROUGH an adaptor, together with the adaptor's own get() over the same region:
       // "VA kind dx dy dz seed p0..p5 bx by bz ex ey ez" -> "R lo hi|empty G v,v,..."
